@@ -123,8 +123,13 @@ func (f *fakeTarget) Subscribe(stream gpb.GNMI_SubscribeServer) error {
 	}
 	f.mu.Unlock()
 	if first {
-		send := func(l []*gpb.SubscribeResponse) bool {
+		send := func(l []*gpb.SubscribeResponse, pace time.Duration) bool {
 			for _, r := range l {
+				if pace > 0 {
+					// let the collector's sender drain its queue between messages, so
+					// that what a subscriber sees does not depend on coalescing
+					time.Sleep(pace)
+				}
 				if err := stream.Send(r); err != nil {
 					f.mu.Lock()
 					f.sendError = err.Error()
@@ -134,12 +139,12 @@ func (f *fakeTarget) Subscribe(stream gpb.GNMI_SubscribeServer) error {
 			}
 			return true
 		}
-		ok := send(f.phase1)
+		ok := send(f.phase1, 0)
 		f.once1.Do(func() { close(f.sent1) })
 		if ok {
 			select {
 			case <-f.go2:
-				send(f.phase2)
+				send(f.phase2, 2*time.Millisecond)
 			case <-f.stop:
 			case <-stream.Context().Done():
 			}
